@@ -1,4 +1,5 @@
 import Chess.Lemmas.Reach
+import Chess.Lemmas.SearchF
 
 /-!
 # C18 — reported principal variations are playable lines
@@ -29,8 +30,18 @@ theorem chess_pv_playable (hZ : ZobristOk) (reqs : List (Req Game)) (hreqs : ∀
       LegalLine Uci.chessOps r.g info.pv :=
   pv_lines_playable_after_any_history hZ chess_closed reqs (fun q hq => reach_wf (hreqs q hq)) r (reach_wf hr)
 
+
+/-! ### The faithful model (`driverF`) -/
+open Chess.Search.F in
+/-- **C18.3** PV lines are playable after any history of searches any of which may have been stopped. -/
+theorem faithful_pv_playable {o : Ops G M} {P : G → Prop} (hH : HashOk o P) (hC : Closed o P)
+    (reqs : List (Req G)) (hreqs : ∀ r ∈ reqs, P r.g) (r : Req G) (hP : P r.g) :
+    ∀ info ∈ (driverF o r.runs r.g (tableAfterF o {} reqs) r.off r.md).infos, LegalLine o r.g info.pv :=
+  (sessionF_sound hH hC reqs hreqs r hP).2.2.1
+
 end Chess.Props.C18
 
 #print axioms Chess.Props.C18.pv_lines_are_playable
 #print axioms Chess.Props.C18.pv_lines_playable_after_any_history
 #print axioms Chess.Props.C18.chess_pv_playable
+#print axioms Chess.Props.C18.faithful_pv_playable
